@@ -90,7 +90,15 @@ impl Check for C14 {
     }
     fn generate(&self, seed: u64, index: u64) -> J {
         // One run in 40 is repeated through the shipped binary with a real pipe (world B)
-        scenario(seed, index).to_json().set("world_b", index % 40 == 7)
+        let scn = scenario(seed, index);
+        // The shipped binary for one script in 40, and for every script that holds a backslash or
+        // a very long line (the front end of the binary handles the argument before the debugger
+        // sees it)
+        let special = scn.script.iter().any(|i| {
+            let line = i.render();
+            line.contains('\\') || line.len() > 1000
+        });
+        scn.to_json().set("world_b", index % 40 == 7 || special)
     }
     fn fixed_scenarios(&self, _tier: Tier) -> Vec<J> {
         // The undocumented `sudo` command (known finding): one deterministic probe
